@@ -114,3 +114,4 @@ pub fn f64_exact(v: f64) -> String {
     }
     format!("{} {}", sign * m, e)
 }
+pub mod evcanon;
